@@ -1,6 +1,7 @@
 package props
 
 import (
+	"go/token"
 	"go/types"
 	"strings"
 
@@ -505,18 +506,64 @@ func c06RouteInLeaseNamespace(c *eng.Ctx, top *ssa.Function, e nfEff) {
 
 // c06Pointees: the local variables a pointer may point to — the variable whose
 // address it is (in place or through the free variable of a closure), or the
-// variables whose address was stored into the alias it is read from.
+// variables whose address was stored into the alias it is read from (followed
+// through phis and the parameters of a followed closure / helper); nil when the
+// pointer may be anything else.
 func c06Pointees(ptr ssa.Value, fr *nfFrame) []*ssa.Alloc {
-	if cell := nfCellOf(ptr); cell != nil {
-		return []*ssa.Alloc{cell}
-	}
 	var out []*ssa.Alloc
-	for _, o := range nfOrigins(ptr, fr) {
-		a, ok := o.Val.(*ssa.Alloc)
-		if !ok || o.Kind != "alloc" {
-			return nil
+	ok := true
+	seen := map[ssa.Value]bool{}
+	var walk func(v ssa.Value, fr *nfFrame, depth int)
+	walk = func(v ssa.Value, fr *nfFrame, depth int) {
+		if v == nil || depth > 6 {
+			ok = false
+			return
 		}
-		out = append(out, a)
+		if seen[v] {
+			return
+		}
+		seen[v] = true
+		switch x := v.(type) {
+		case *ssa.Alloc:
+			out = append(out, x)
+		case *ssa.FreeVar:
+			if cell := nfCellOf(x); cell != nil {
+				out = append(out, cell)
+			} else {
+				ok = false
+			}
+		case *ssa.Phi:
+			for _, e := range x.Edges {
+				walk(e, fr, depth+1)
+			}
+		case *ssa.ChangeType:
+			walk(x.X, fr, depth+1)
+		case *ssa.Parameter:
+			if fr == nil {
+				ok = false
+				return
+			}
+			walk(nfArgFor(fr.call, x), fr.up, depth+1)
+		case *ssa.UnOp:
+			cell := nfCellOf(x.X)
+			if x.Op != token.MUL || cell == nil {
+				ok = false
+				return
+			}
+			vals := nfStoresTo(cell)
+			if len(vals) == 0 {
+				ok = false
+			}
+			for _, sv := range vals {
+				walk(sv, nil, depth+1)
+			}
+		default:
+			ok = false
+		}
+	}
+	walk(ptr, fr, 0)
+	if !ok {
+		return nil
 	}
 	return out
 }
